@@ -360,7 +360,8 @@ class BuiltinMixin:
         n = self.list_len(lv)
         el = self.list_elems(lv)
         if name == 'append':
-            self.list_append(lv, self.force_for(args[0], ek))
+            # (an empty literal appended to a list of containers becomes a fresh empty container)
+            self.list_append(lv, self.force_for(self.materialise(args[0], ek), ek))
             return NONEV
         if name == 'appendleft' or (name == 'insert' and self._is_zero(args[0])):
             v = args[0] if name == 'appendleft' else args[1]
